@@ -666,6 +666,9 @@ func c20Oracle(res *RunResult) []Violation {
 	case "alerts":
 		return alertsOracle("C20", res)
 	case "crud":
+		if res.Plan.Params["crash_mode"] == true {
+			return crudCrashOracle("C20", res)
+		}
 		return crudOracle("C20", res)
 	}
 	return nil
@@ -692,6 +695,9 @@ func init() {
 				}
 				return alertsAccount(c, res)
 			})
+			if os.Getenv("VERIF_C20_PART") == "" || os.Getenv("VERIF_C20_PART") == "crash" {
+				runC20Crash(c)
+			}
 		},
 		Oracle: c20Oracle,
 		Assumptions: []string{
